@@ -102,6 +102,34 @@ RunCont == { B("RUN"), B("CONT") }
 ImmLoopLines == { B("FOR I=1 TO 2"), B("FOR J=1 TO 2"), B("FOR I=1 TO 1"), B("NEXT I"), B("NEXT J"), B("PRINT I;J"), B("X=0:FOR I=1 TO 3") }
 MatrixInputKernels == {k \in MatrixKernels : \E cx \in MCtxs : k.name = "input_" \o cx.n}
 
+\* What a host may type while a program sits exactly at a cap (32 frames, 32 loops): each must be refused or harmless
+CapProbeLines == { B("GOSUB 10"), B("PRINT F(1)"), B("FOR Q=1 TO 2"), B("CONT"), B("RETURN") }
+CapBreakKernels == { K("recurse", << "10 N=N+1:GOSUB 10" >>), K("recstop", << "10 N=N+1:IF N=32 THEN STOP", "20 GOSUB 10" >>),
+                     K("fnrecstop", << "10 DEF F(X)=X+1:N=N+1:IF N=32 THEN STOP", "20 GOSUB 10" >>) }
+
+(***************************************************************************)
+(* Scale kernels: the same constructs at sizes the short alphabets never    *)
+(* reach -- long names and strings, counts in the tens, values in the       *)
+(* thousands, many DATA items, deeper nesting, longer programs.             *)
+(***************************************************************************)
+ScaleKernels == {
+    K("sc_loop",  << "10 FOR I=1 TO 40:S=S+I:NEXT I:PRINT S;I", "20 FOR K=100 TO 10 STEP -7:C=C+1:NEXT K:PRINT C;K" >>),
+    K("sc_names", << "10 ZEBRA9=1234:QUUX$=\"ABCDEFGHIJKLMNOP\":ZEBRA8=ZEBRA9+1", "20 PRINT ZEBRA9;ZEBRA8;QUUX$;QUUX$+QUUX$", "30 PRINT ZEBRA;QUU$" >>),
+    K("sc_data",  << "10 DATA 1,2,3,4,5,6,7,8,9,10,11,12,13,14,15,16,17,18", "20 DATA a,b,c,d,e,f,g,h,i,j,k,l", "30 FOR I=1 TO 18:READ V:T=T+V:NEXT I",
+                     "40 FOR I=1 TO 12:READ W$:U$=U$+W$:NEXT I", "50 PRINT T;U$:RESTORE:READ V:PRINT V:READ V,V,V,V,V,V,V,V,V,V,V,V,V,V,V,V,V,W$:PRINT V;W$" >>),
+    K("sc_nest",  << "10 FOR A=1 TO 2:FOR B=1 TO 2:FOR C=1 TO 2:FOR D=1 TO 2:FOR E=1 TO 2:N=N+1:NEXT E:NEXT D:NEXT C:NEXT B:NEXT A:PRINT N",
+                     "20 D=0:GOSUB 100:PRINT D", "30 END", "100 D=D+1:IF D<12 THEN GOSUB 100", "110 RETURN" >>),
+    K("sc_arr",   << "10 DIM A(50),B(9,9),C$(20):A(49)=7:A(50)=8:B(9,9)=3:B(8,9)=4:C$(20)=\"z\"", "20 PRINT A(49)+A(50);B(9,9)*B(8,9);C$(20);A(0);B(0,9)",
+                     "30 FOR I=0 TO 50:A(I)=I*2:NEXT I:PRINT A(25);A(50)", "40 PRINT A(51)" >>),
+    K("sc_nums",  << "10 PRINT 12345;99999;65536;1000000;123456789;.001;.125;1024*1024;32768+32768;100000-1", "20 PRINT 17*19;255/5;1000/8;2^20;7^3;INT(1234.5);ABS(-4096)",
+                     "30 IF 1000>999 AND 65536>=65536 THEN PRINT \"big\"", "40 GOTO 65000", "65000 PRINT \"far\"" >>),
+    K("sc_lines", << "10 X=1", "20 X=X+1", "30 X=X+1", "40 X=X+1", "50 X=X+1", "60 X=X+1", "70 X=X+1", "80 X=X+1", "90 X=X+1", "100 X=X+1", "110 X=X+1", "120 X=X+1",
+                     "130 X=X+1", "140 X=X+1", "150 X=X+1", "160 X=X+1", "170 X=X+1", "180 X=X+1", "190 X=X+1", "200 IF X<20 THEN PRINT \"no\"", "210 PRINT X:GOTO 230", "220 PRINT \"skipped\"", "230 PRINT \"end\"" >>),
+    K("sc_print", << "10 PRINT 1;2;3;4;5;6;7;8;9;10;11;12", "20 PRINT 1,2,3,4,5,6,7,8", "30 PRINT \"ABCDEFGHIJKLMNOPQRSTUVWXYZ0123456789\";\"abcdefghij\",\"k\"",
+                     "40 A$=\"0123456789\":B$=A$+A$+A$+A$:PRINT B$;B$" >>),
+    K("sc_fn",    << "10 DEF F(X)=X*2:DEF G(X)=F(X)+F(X+1):DEF H(X)=G(X)+G(X+1)+F(X):DEF J(X,Y,Z)=H(X)+H(Y)+H(Z)", "20 PRINT F(21);G(10);H(5);J(1,2,3)", "30 X=99:PRINT J(X,X,X);X" >>)
+}
+
 \* Kernels that drive the caps of C16: frames by GOSUB and by function recursion, 33 FOR
 \* variables, a FOR re-entered by GOTO 40 times, DIM at and beyond 10000 cells, implicit
 \* arrays of 1..5 dimensions, and every write path offered the wrong kind.
